@@ -79,6 +79,8 @@ func (a bfact) String() string {
 	return "[" + l + ".." + u + "]"
 }
 
+type relKey struct{ a, cell ssa.Value }
+
 type bstate struct {
 	reach bool
 	L     int
@@ -90,12 +92,15 @@ type bstate struct {
 	alias map[ssa.Value]ssa.Value
 	eqc   map[ssa.Value]int64 // value == constant (bytes compared with character literals)
 	pre   map[ssa.Value]bfact // int parameters: what every call site guarantees (shared, never modified)
+	rel   map[relKey]int      // a - *cell <= d  (a: integer SSA value, cell: *int cell)
+	cdel  map[ssa.Value]int   // *cell - (its value at function entry) >= d  (parameter cells)
 	flag  map[string]bool     // recv.<path> (a bool field) has this value
 }
 
 func newBState() *bstate {
 	return &bstate{val: map[ssa.Value]bfact{}, slen: map[ssa.Value]int{}, ge: map[ssa.Value]bool{}, cur: map[ssa.Value]bool{},
-		cell: map[ssa.Value]bfact{}, alias: map[ssa.Value]ssa.Value{}, eqc: map[ssa.Value]int64{}, flag: map[string]bool{}}
+		cell: map[ssa.Value]bfact{}, alias: map[ssa.Value]ssa.Value{}, eqc: map[ssa.Value]int64{}, flag: map[string]bool{},
+		rel: map[relKey]int{}, cdel: map[ssa.Value]int{}}
 }
 
 func (s *bstate) clone() *bstate {
@@ -124,6 +129,12 @@ func (s *bstate) clone() *bstate {
 	}
 	for k, v := range s.flag {
 		n.flag[k] = v
+	}
+	for k, v := range s.rel {
+		n.rel[k] = v
+	}
+	for k, v := range s.cdel {
+		n.cdel[k] = v
 	}
 	return n
 }
@@ -192,6 +203,38 @@ func joinB(a, b *bstate) *bstate {
 			r.flag[k] = v
 		}
 	}
+	// a value that IS the cell on one path (alias) stands in relation 0 to it there
+	for k, v := range a.rel {
+		w, ok := b.rel[k]
+		if !ok && b.alias[k.a] == k.cell {
+			w, ok = 0, true
+		}
+		if ok {
+			if w > v {
+				v = w
+			}
+			r.rel[k] = v
+		}
+	}
+	for k, w := range b.rel {
+		if _, done := a.rel[k]; done {
+			continue
+		}
+		if a.alias[k.a] == k.cell {
+			if w < 0 {
+				w = 0
+			}
+			r.rel[k] = w
+		}
+	}
+	for k, v := range a.cdel {
+		if w, ok := b.cdel[k]; ok {
+			if w < v {
+				v = w
+			}
+			r.cdel[k] = v
+		}
+	}
 	return r
 }
 
@@ -208,6 +251,19 @@ func eqB(a, b *bstate) bool {
 	}
 	for k, v := range a.flag {
 		if w, ok := b.flag[k]; !ok || w != v {
+			return false
+		}
+	}
+	if len(a.rel) != len(b.rel) || len(a.cdel) != len(b.cdel) {
+		return false
+	}
+	for k, v := range a.rel {
+		if w, ok := b.rel[k]; !ok || w != v {
+			return false
+		}
+	}
+	for k, v := range a.cdel {
+		if w, ok := b.cdel[k]; !ok || w != v {
 			return false
 		}
 	}
@@ -283,6 +339,16 @@ func widenB(old, nw *bstate) *bstate {
 	if nw.L != old.L {
 		r.L = 0
 	}
+	for k, v := range nw.rel {
+		if o, ok := old.rel[k]; !ok || o != v {
+			delete(r.rel, k)
+		}
+	}
+	for k, v := range nw.cdel {
+		if o, ok := old.cdel[k]; !ok || o != v {
+			delete(r.cdel, k)
+		}
+	}
 	return r
 }
 
@@ -327,6 +393,7 @@ type bsum struct {
 	res    []bfact // per result (int results)
 	resStr []int   // per result (string results): slen, bInf unknown
 	cell   map[int]bfact
+	cdel   map[int]int // *int parameter j grows by at least cdel[j] (absent: unknown)
 	when   [2]map[int]*bimpl // [0]=false, [1]=true; per bool result index
 }
 
@@ -1205,12 +1272,132 @@ func (e *bndEngine) applyImpl(call *ssa.Call, idx int, truth bool, st *bstate) {
 	}
 }
 
+// plusConst: v = base + c (c constant, possibly 0)
+func plusConst(v ssa.Value) (ssa.Value, int) {
+	base, off := v, 0
+	for {
+		b, ok := base.(*ssa.BinOp)
+		if !ok {
+			return base, off
+		}
+		if c, isC := constIntOf(b.Y); isC && b.Op == token.ADD {
+			base, off = b.X, off+c
+		} else if c, isC := constIntOf(b.Y); isC && b.Op == token.SUB {
+			base, off = b.X, off-c
+		} else if c, isC := constIntOf(b.X); isC && b.Op == token.ADD {
+			base, off = b.Y, off+c
+		} else {
+			return base, off
+		}
+	}
+}
+
+// cellMoved: *cell grew by at least d (known), or changed arbitrarily (!known). Values that were equal to the
+// cell (its aliases) are now d below it.
+func (e *bndEngine) cellMoved(cell ssa.Value, d int, known bool, st *bstate) {
+	if !known {
+		for k := range st.rel {
+			if k.cell == cell {
+				delete(st.rel, k)
+			}
+		}
+		delete(st.cdel, cell)
+		return
+	}
+	for k, v := range st.rel {
+		if k.cell == cell {
+			st.rel[k] = v - d
+		}
+	}
+	for a, p := range st.alias {
+		if p != cell {
+			continue
+		}
+		if _, isC := a.(*ssa.Const); isC {
+			continue
+		}
+		k := relKey{a, cell}
+		if v, ok := st.rel[k]; !ok || -d < v {
+			st.rel[k] = -d
+		}
+	}
+	if v, ok := st.cdel[cell]; ok {
+		st.cdel[cell] = v + d
+	}
+}
+
+// relOf: the best known d with a - *cell <= d (bInf: none)
+func (e *bndEngine) relOf(a, cell ssa.Value, st *bstate, depth int) int {
+	best := bInf
+	if depth > 6 {
+		return best
+	}
+	if d, ok := st.rel[relKey{a, cell}]; ok {
+		best = d
+	}
+	if st.alias[a] == cell && best > 0 {
+		best = 0
+	}
+	if base, c := plusConst(a); base != a {
+		if d := e.relOf(base, cell, st, depth+1); d < bInf && d+c < best {
+			best = d + c
+		}
+	}
+	if k, ok := constIntOf(a); ok {
+		if cf, ok := st.cell[cell]; ok && cf.lb > -bInf && k-cf.lb < best {
+			best = k - cf.lb
+		}
+	}
+	return best
+}
+
+// needOrder: the two bounds of chunk[a:b] are in order
+func (e *bndEngine) needOrder(f *ssa.Function, ins ssa.Instruction, low, high ssa.Value, st *bstate) {
+	lo, hi := e.eval(low, st, 0), e.eval(high, st, 0)
+	ok, why := false, ""
+	if low == high {
+		ok, why = true, "same value"
+	}
+	if k, isC := constIntOf(low); !ok && isC && hi.lb >= k {
+		ok, why = true, fmt.Sprintf("a = %d <= lower bound %d of b", k, hi.lb)
+	}
+	if s, isLen := isLenCall(high); !ok && isLen && st.cur[s] && lo.ub <= 0 {
+		ok, why = true, "a <= len(chunk) = b"
+	}
+	if !ok {
+		base, c := plusConst(high)
+		if cell, isAl := st.alias[base]; isAl {
+			if d := e.relOf(low, cell, st, 0); d <= c {
+				ok, why = true, fmt.Sprintf("a - *cell <= %d, b = *cell%+d", d, c)
+			} else {
+				why = fmt.Sprintf("a - *cell <= %s needed <= %d", relStr(d), c)
+			}
+		}
+	}
+	if !ok && why == "" {
+		why = fmt.Sprintf("a = %s, b = %s: no relation between them is known", lo, hi)
+	}
+	e.record(bSite{fn: f, ins: ins, kind: "order", what: "chunk[a:b] a<=b", ok: ok, note: why, pos: ins.Pos()})
+}
+
+func relStr(d int) string {
+	if d >= bInf {
+		return "unknown"
+	}
+	return fmt.Sprint(d)
+}
+
 // ---------------------------------------------------------------------------------------------
 // transfer
 
 func (e *bndEngine) entryState(f *ssa.Function) *bstate {
 	st := newBState()
 	st.reach = true
+	for _, par := range f.Params {
+		if isIntPtr(par.Type()) {
+			st.cdel[par] = 0
+		}
+	}
 	if e.open[f] {
 		return st
 	}
@@ -1365,6 +1552,11 @@ func (e *bndEngine) transfer(f *ssa.Function, b *ssa.BasicBlock, st *bstate, pos
 				delete(st.alias, v)
 				delete(st.cur, v)
 				delete(st.eqc, v)
+				for k := range st.rel {
+					if k.a == v || k.cell == v {
+						delete(st.rel, k)
+					}
+				}
 				if _, isAlloc := ins.(*ssa.Alloc); isAlloc {
 					delete(st.cell, v)
 					for k, p := range st.alias {
@@ -1420,6 +1612,12 @@ func (e *bndEngine) transfer(f *ssa.Function, b *ssa.BasicBlock, st *bstate, pos
 			}
 			if isCell(x.Addr) {
 				nf := e.eval(x.Val, st, 0)
+				// *cell = (old *cell) + c moves every relation to the cell by c; any other store voids them
+				if base, c := plusConst(x.Val); st.alias[base] == x.Addr {
+					e.cellMoved(x.Addr, c, true, st)
+				} else {
+					e.cellMoved(x.Addr, 0, false, st)
+				}
 				for k, p := range st.alias {
 					if p == x.Addr {
 						delete(st.alias, k)
@@ -1451,6 +1649,7 @@ func (e *bndEngine) transfer(f *ssa.Function, b *ssa.BasicBlock, st *bstate, pos
 					if x.Low != nil {
 						e.need(f, ins, "slice", "chunk[a:]", x.Low, bInf, true, st)
 						e.refine(x.Low, bfact{bInf, 0}, st, 0)
+						e.needOrder(f, ins, x.Low, x.High, st)
 					}
 				} else if x.Low != nil {
 					e.need(f, ins, "slice", "chunk[a:]", x.Low, 0, true, st)
@@ -1528,6 +1727,15 @@ func (e *bndEngine) transferCall(f *ssa.Function, call *ssa.Call, st *bstate, po
 			if !isIntPtr(a.Type()) {
 				continue
 			}
+			if d, ok := 0, false; s != nil && s.set {
+				if d, ok = s.cdel[j]; ok {
+					e.cellMoved(a, d, true, st)
+				} else {
+					e.cellMoved(a, 0, false, st)
+				}
+			} else {
+				e.cellMoved(a, 0, false, st)
+			}
 			for k, p := range st.alias {
 				if p == a {
 					delete(st.alias, k)
@@ -1566,6 +1774,7 @@ func (e *bndEngine) transferCall(f *ssa.Function, call *ssa.Call, st *bstate, po
 	for _, a := range args {
 		if isIntPtr(a.Type()) {
 			delete(st.cell, a)
+			e.cellMoved(a, 0, false, st)
 			for k, p := range st.alias {
 				if p == a {
 					delete(st.alias, k)
@@ -1687,6 +1896,42 @@ func (e *bndEngine) edgeState(b *ssa.BasicBlock, out *bstate, si int) *bstate {
 		case isStringType(phi.Type()):
 			facts = append(facts, pf{phi: phi, f: bTop, sl: e.slenOf(phi.Edges[pi], st, 0)})
 		}
+	}
+	// relations of the incoming values to the cells carry over to the phis
+	type pr struct {
+		k relKey
+		d int
+	}
+	var rels []pr
+	cells := map[ssa.Value]bool{}
+	for c := range st.cell {
+		cells[c] = true
+	}
+	for k := range st.rel {
+		cells[k.cell] = true
+	}
+	for _, p := range st.alias {
+		cells[p] = true
+	}
+	for _, x := range facts {
+		if !isIntType(x.phi.Type()) {
+			continue
+		}
+		for c := range cells {
+			if d := e.relOf(x.phi.Edges[pi], c, st, 0); d < bInf {
+				rels = append(rels, pr{relKey{x.phi, c}, d})
+			}
+		}
+	}
+	for _, x := range facts {
+		for k := range st.rel {
+			if k.a == ssa.Value(x.phi) {
+				delete(st.rel, k)
+			}
+		}
+	}
+	for _, r := range rels {
+		st.rel[r.k] = r.d
 	}
 	for _, x := range facts {
 		delete(st.val, x.phi)
@@ -1879,7 +2124,7 @@ func (e *bndEngine) finish(f *ssa.Function, entry *bstate, sum *bsum, first bool
 }
 
 func newBSum(f *ssa.Function) *bsum {
-	sum := &bsum{set: true, cell: map[int]bfact{}}
+	sum := &bsum{set: true, cell: map[int]bfact{}, cdel: map[int]int{}}
 	sum.when[0] = map[int]*bimpl{}
 	sum.when[1] = map[int]*bimpl{}
 	nres := f.Signature.Results().Len()
@@ -1956,8 +2201,18 @@ func (e *bndEngine) summarise(f *ssa.Function, b *ssa.BasicBlock, st *bstate, su
 		}
 		if *firstp {
 			sum.cell[j] = cf
+			if d, ok := st.cdel[p]; ok {
+				sum.cdel[j] = d
+			}
 		} else {
 			sum.cell[j] = sum.cell[j].join(cf)
+			if d, ok := st.cdel[p]; ok {
+				if o, had := sum.cdel[j]; had && d < o {
+					sum.cdel[j] = d
+				}
+			} else {
+				delete(sum.cdel, j)
+			}
 		}
 	}
 	*firstp = false
@@ -1982,6 +2237,14 @@ func eqSum(a, b *bsum) bool {
 	}
 	for k, v := range a.cell {
 		if w, ok := b.cell[k]; !ok || w != v {
+			return false
+		}
+	}
+	if len(a.cdel) != len(b.cdel) {
+		return false
+	}
+	for k, v := range a.cdel {
+		if w, ok := b.cdel[k]; !ok || w != v {
 			return false
 		}
 	}
